@@ -6,7 +6,7 @@ use crate::interpose::{self, EPOCH0};
 use crate::model::{self, SOp, TaskSet};
 use crate::rng::{mix, Fnv, Rng};
 use crate::simserver::{ServerWorld, SimServer, SrvEvent};
-use crate::simstorage::{self, is_sim_err, MemStore, SimStorage, StoreState};
+use crate::simstorage::{self, is_sim_err, SimStorage, StoreRef, StoreState};
 use crate::{CheckDef, RunResult, Violation};
 use serde::{Deserialize, Serialize};
 use serde_json::Value;
@@ -28,6 +28,8 @@ pub enum Intent {
     UndoPoint,
     /// create n further tasks (C12: large snapshots)
     Bulk { n: u16 },
+    /// like Set, but the value alone exceeds the one-megabyte batching threshold
+    SetHuge { t: u8, p: u8, ts: i64 },
     /// set (or remove) an arbitrary key to an explicit value through the TaskData API
     /// (status, modified, dep_…, tag_… for C15/C19/C20); not tracked by the conservation oracle
     Key { t: u8, key: String, val: Option<String>, ts: i64 },
@@ -93,6 +95,16 @@ pub struct Scenario {
     /// synchronized and the server has discarded the versions before its snapshot
     #[serde(default)]
     pub late: usize,
+    /// replicas use the real SqliteStorage (own directory each) instead of InMemoryStorage
+    #[serde(default)]
+    pub sqlite: bool,
+    /// unit of the intents' timestamp offsets in milliseconds (0 = whole seconds)
+    #[serde(default)]
+    pub ts_unit_ms: u32,
+    /// C06: number of storage-call kill points (and twice as many write-syscall kill points) at
+    /// which the action is repeated in a victim process that is really SIGKILLed
+    #[serde(default)]
+    pub kill_budget: u32,
 }
 
 pub fn task_uuid(t: u8) -> Uuid {
@@ -144,7 +156,10 @@ struct LedgerOp {
 
 pub(crate) struct World {
     pub(crate) sc: Scenario,
-    pub(crate) stores: Vec<MemStore>,
+    pub(crate) stores: Vec<StoreRef>,
+    /// root of this run's on-disk stores (removed when the last world of the run is dropped)
+    pub(crate) root: Option<Rc<crate::fam_c::DirGuard>>,
+    dir_counter: Rc<std::cell::Cell<u64>>,
     server: Rc<RefCell<ServerWorld>>,
     pc: Vec<usize>,
     ledger: Vec<Vec<LedgerOp>>,
@@ -197,7 +212,8 @@ pub(crate) fn fired_total() -> u64 {
 
 /// Build the operations for a list of intents the way an application would: through the public
 /// `TaskData` API, against the replica's current view. Returns None if reading failed (fault).
-async fn build_ops(n: usize, a: usize, replica: &mut Replica<SimStorage>, intents: &[Intent], now_ns: i64, style: u8) -> Option<Operations> {
+async fn build_ops(n: usize, a: usize, replica: &mut Replica<SimStorage>, intents: &[Intent], now_ns: i64, style: u8, ts_unit_ms: u32) -> Option<Operations> {
+    let ts_ns = |ts: i64| -> i64 { if ts_unit_ms == 0 { (EPOCH0 + ts) * 1_000_000_000 } else { EPOCH0 * 1_000_000_000 + ts * ts_unit_ms as i64 * 1_000_000 } };
     let mut ops = Operations::new();
     let mut view: BTreeMap<u8, Option<TaskData>> = BTreeMap::new();
     for (i, it) in intents.iter().enumerate() {
@@ -221,7 +237,7 @@ async fn build_ops(n: usize, a: usize, replica: &mut Replica<SimStorage>, intent
                 }
                 continue;
             }
-            Intent::Create { t } | Intent::Delete { t } | Intent::Set { t, .. } | Intent::Remove { t, .. } | Intent::Key { t, .. } => *t,
+            Intent::Create { t } | Intent::Delete { t } | Intent::Set { t, .. } | Intent::Remove { t, .. } | Intent::Key { t, .. } | Intent::SetHuge { t, .. } => *t,
         };
         if !view.contains_key(&t) {
             match replica.get_task_data(task_uuid(t)).await {
@@ -245,19 +261,28 @@ async fn build_ops(n: usize, a: usize, replica: &mut Replica<SimStorage>, intent
             }
             Intent::Set { p, ts, big, .. } => {
                 if let Some(td) = slot.as_mut() {
-                    interpose::set_now_ns((EPOCH0 + ts) * 1_000_000_000);
+                    interpose::set_now_ns(ts_ns(*ts));
                     td.update(prop_name_s(*p, style), Some(value_for(n, a, i, *big, style)), &mut ops);
                 }
             }
             Intent::Remove { p, ts, .. } => {
                 if let Some(td) = slot.as_mut() {
-                    interpose::set_now_ns((EPOCH0 + ts) * 1_000_000_000);
+                    interpose::set_now_ns(ts_ns(*ts));
                     td.update(prop_name_s(*p, style), None, &mut ops);
+                }
+            }
+            Intent::SetHuge { p, ts, .. } => {
+                if let Some(td) = slot.as_mut() {
+                    interpose::set_now_ns(ts_ns(*ts));
+                    let mut v = value_for(n, a, i, false, 0);
+                    v.push(':');
+                    v.push_str(&"y".repeat(1_050_000));
+                    td.update(prop_name_s(*p, style), Some(v), &mut ops);
                 }
             }
             Intent::Key { key, val, ts, .. } => {
                 if let Some(td) = slot.as_mut() {
-                    interpose::set_now_ns((EPOCH0 + ts) * 1_000_000_000);
+                    interpose::set_now_ns(ts_ns(*ts));
                     td.update(key.clone(), val.clone(), &mut ops);
                 }
             }
@@ -272,8 +297,8 @@ async fn do_commit(n: usize, a: usize, w: &Rc<RefCell<World>>, replica: &mut Rep
     let now = w.borrow().now_ns;
     let f0 = fired_total();
     let epoch = w.borrow().epoch;
-    let style = w.borrow().sc.style;
-    let Some(ops) = build_ops(n, epoch * 10_000 + a, replica, intents, now, style).await else {
+    let (style, unit) = (w.borrow().sc.style, w.borrow().sc.ts_unit_ms);
+    let Some(ops) = build_ops(n, epoch * 10_000 + a, replica, intents, now, style, unit).await else {
         return;
     };
     commit_ops(n, a, w, replica, ops, f0).await
@@ -301,12 +326,12 @@ pub(crate) async fn commit_ops(n: usize, a: usize, w: &Rc<RefCell<World>>, repli
     if ops.is_empty() {
         return;
     }
-    let before = simstorage::read_mem(&w.borrow().stores[n]);
+    let before = simstorage::read_store(&w.borrow().stores[n]);
     let sops: Vec<SOp> = ops.iter().filter_map(op_to_sop).collect();
     let all_ops = ops.clone();
     let r = replica.commit_operations(ops).await;
     let faulted = fired_total() > f0;
-    let after = simstorage::read_mem(&w.borrow().stores[n]);
+    let after = simstorage::read_store(&w.borrow().stores[n]);
     let mut wb = w.borrow_mut();
     // atomicity: the unsynced list is either untouched or extended by exactly the batch
     let mut applied = false;
@@ -351,16 +376,16 @@ async fn do_sync(n: usize, a: usize, w: &Rc<RefCell<World>>, replica: &mut Repli
     }
     let ev0 = w.borrow().server.borrow().events.len();
     let was_empty = {
-        let st = simstorage::read_mem(&w.borrow().stores[n]);
+        let st = simstorage::read_store(&w.borrow().stores[n]);
         st.tasks.is_empty() && st.unsynced.is_empty() && st.base_version.is_nil() && st.working_set.iter().all(|x| x.is_none())
     };
-    let ws_before = simstorage::read_mem(&w.borrow().stores[n]);
+    let ws_before = simstorage::read_store(&w.borrow().stores[n]);
     let r = replica.sync(server, avoid).await;
     let faulted = fired_total() > f0;
     let mut wb = w.borrow_mut();
     wb.server.borrow_mut().sync_finished(n, r.is_ok());
     if r.is_ok() {
-        let after = simstorage::read_mem(&wb.stores[n]);
+        let after = simstorage::read_store(&wb.stores[n]);
         ws_after_rebuild(&mut wb, n, &format!("action {a} sync"), false, &ws_before, &after);
     }
     // probes from the server's event log for this sync
@@ -439,7 +464,7 @@ async fn do_undo(n: usize, a: usize, w: &Rc<RefCell<World>>, replica: &mut Repli
     };
     {
         // the fetched list is: back to and including the last undo point, else everything unsynced
-        let cur = simstorage::read_mem(&w.borrow().stores[n]);
+        let cur = simstorage::read_store(&w.borrow().stores[n]);
         let from = cur.unsynced.iter().rposition(|o| o.is_undo_point()).unwrap_or(0);
         if undo_ops[..] != cur.unsynced[from..] && fired_total() == f0 {
             w.borrow_mut().violation("undo.list", "wrong-range", format!("node {n} action {a}: get_undo_operations returned {} operations, expected the {} since the last undo point", undo_ops.len(), cur.unsynced.len() - from));
@@ -447,18 +472,18 @@ async fn do_undo(n: usize, a: usize, w: &Rc<RefCell<World>>, replica: &mut Repli
     }
     let mut stale = false;
     if let Some(intents) = then {
-        let before = simstorage::read_mem(&w.borrow().stores[n]);
+        let before = simstorage::read_store(&w.borrow().stores[n]);
         do_commit(n, a, w, replica, intents).await;
-        let after = simstorage::read_mem(&w.borrow().stores[n]);
+        let after = simstorage::read_store(&w.borrow().stores[n]);
         stale = after.unsynced.len() != before.unsynced.len();
     }
-    let before = simstorage::read_mem(&w.borrow().stores[n]);
+    let before = simstorage::read_store(&w.borrow().stores[n]);
     // the list is stale iff it is no longer the tail of the unsynchronized operations
     let _ = stale;
     let stale = !(before.unsynced.len() >= undo_ops.len() && before.unsynced[before.unsynced.len() - undo_ops.len()..] == undo_ops[..]);
     let r = replica.commit_reversed_operations(undo_ops.clone()).await;
     let faulted = fired_total() > f0;
-    let after = simstorage::read_mem(&w.borrow().stores[n]);
+    let after = simstorage::read_store(&w.borrow().stores[n]);
     let mut wb = w.borrow_mut();
     let n_real = undo_ops.iter().filter(|o| !o.is_undo_point()).count();
     match &r {
@@ -600,7 +625,7 @@ fn do_foreign(n: usize, a: usize, w: &Rc<RefCell<World>>, intents: &[Intent], fm
                     parts.push(format!("{{\"Update\":{}{{{}}}{}}}", ws(&mut rng), fields.join(&format!(",{}", ws(&mut rng))), ws(&mut rng)));
                 }
             }
-            Intent::UndoPoint | Intent::Bulk { .. } | Intent::Key { .. } => {}
+            Intent::UndoPoint | Intent::Bulk { .. } | Intent::Key { .. } | Intent::SetHuge { .. } => {}
         }
     }
     if parts.is_empty() {
@@ -743,10 +768,10 @@ fn fmt_ws(ws: &[Option<Uuid>]) -> Vec<String> {
 
 async fn do_rebuild(n: usize, a: usize, w: &Rc<RefCell<World>>, replica: &mut Replica<SimStorage>, renumber: bool) {
     let f0 = fired_total();
-    let before = simstorage::read_mem(&w.borrow().stores[n]);
+    let before = simstorage::read_store(&w.borrow().stores[n]);
     let r = replica.rebuild_working_set(renumber).await;
     let faulted = fired_total() > f0;
-    let after = simstorage::read_mem(&w.borrow().stores[n]);
+    let after = simstorage::read_store(&w.borrow().stores[n]);
     let mut wb = w.borrow_mut();
     match r {
         Ok(()) => ws_after_rebuild(&mut wb, n, &format!("action {a} rebuild(renumber={renumber})"), renumber, &before, &after),
@@ -790,13 +815,13 @@ const EXPIRY_SECS: i64 = 180 * 86400;
 
 async fn do_expire(n: usize, a: usize, w: &Rc<RefCell<World>>, replica: &mut Replica<SimStorage>, at: i64) {
     let f0 = fired_total();
-    let before = simstorage::read_mem(&w.borrow().stores[n]);
+    let before = simstorage::read_store(&w.borrow().stores[n]);
     let now = EPOCH0 + at;
     interpose::set_now_ns(now * 1_000_000_000);
     let r = replica.expire_tasks().await;
     interpose::set_now_ns(w.borrow().now_ns);
     let faulted = fired_total() > f0;
-    let after = simstorage::read_mem(&w.borrow().stores[n]);
+    let after = simstorage::read_store(&w.borrow().stores[n]);
     let mut wb = w.borrow_mut();
     // exactly the tasks with status deleted and a readable modification time more than 180 days ago
     let mut expect_gone: BTreeSet<Uuid> = BTreeSet::new();
@@ -850,7 +875,7 @@ async fn do_expire(n: usize, a: usize, w: &Rc<RefCell<World>>, replica: &mut Rep
 
 /// Replica invariant (docs/src/sync-model.md): tasks == M-apply(state_at(base_version), unsynced ops).
 fn post_check(n: usize, w: &Rc<RefCell<World>>, why: &str) {
-    let st = simstorage::read_mem(&w.borrow().stores[n]);
+    let st = simstorage::read_store(&w.borrow().stores[n]);
     let mut wb = w.borrow_mut();
     let base = {
         let sw = wb.server.borrow();
@@ -883,7 +908,17 @@ fn make_node(n: usize, w: Rc<RefCell<World>>) -> NodeFut {
     Box::pin(async move {
         let store = w.borrow().stores[n].clone();
         let srv = w.borrow().server.clone();
-        let mut replica = Replica::new(SimStorage::mem(store));
+        let storage = match simstorage::open_sim(&store, false).await {
+            Ok(s) => s,
+            Err(e) => {
+                w.borrow_mut().violation("storage.open", "node-start", format!("node {n}: cannot open its store: {e:#}"));
+                let mut wb = w.borrow_mut();
+                let len = wb.sc.scripts[n].len();
+                wb.pc[n] = len;
+                return;
+            }
+        };
+        let mut replica = Replica::new(storage);
         let mut server: Box<dyn Server> = Box::new(SimServer { node: n, world: srv });
         loop {
             let (a, action) = {
@@ -921,7 +956,7 @@ fn make_node(n: usize, w: Rc<RefCell<World>>) -> NodeFut {
 fn hash_state(w: &World) -> u64 {
     let mut h = Fnv::default();
     for s in &w.stores {
-        let st = simstorage::read_mem(s);
+        let st = simstorage::read_store(s);
         for (u, p) in &st.tasks {
             h.write(u.as_bytes());
             for (k, v) in p {
@@ -942,8 +977,11 @@ fn new_world(sc: &Scenario, want_log: bool) -> W {
     let n = sc.nodes;
     let start_ns = EPOCH0 * 1_000_000_000;
     interpose::set_now_ns(start_ns);
+    let root = if sc.sqlite { Some(Rc::new(crate::fam_c::DirGuard(crate::fam_c::run_dir(&sc.check, sc.seed)))) } else { None };
     Rc::new(RefCell::new(World {
-        stores: (0..n).map(|_| simstorage::new_mem()).collect(),
+        stores: (0..n).map(|i| if let Some(r) = &root { let d = r.0.join(format!("n{i}")); let _ = std::fs::create_dir_all(&d); StoreRef::Sqlite(d) } else { StoreRef::Mem(simstorage::new_mem()) }).collect(),
+        root: root.clone(),
+        dir_counter: Rc::new(std::cell::Cell::new(0)),
         server: Rc::new(RefCell::new(ServerWorld::new(sc.srv_seed, sc.urgency_mode, false))),
         pc: vec![0; n],
         ledger: vec![Vec::new(); n],
@@ -965,7 +1003,20 @@ fn fork(w: &W) -> W {
     let wb = w.borrow();
     let server_copy: ServerWorld = wb.server.borrow().clone();
     Rc::new(RefCell::new(World {
-        stores: wb.stores.iter().map(simstorage::clone_mem).collect(),
+        stores: wb
+            .stores
+            .iter()
+            .enumerate()
+            .map(|(i, s)| {
+                simstorage::clone_store(s, || {
+                    let k = wb.dir_counter.get() + 1;
+                    wb.dir_counter.set(k);
+                    wb.root.as_ref().unwrap().0.join(format!("f{k}n{i}"))
+                })
+            })
+            .collect(),
+        root: wb.root.clone(),
+        dir_counter: wb.dir_counter.clone(),
         server: Rc::new(RefCell::new(server_copy)),
         pc: wb.pc.clone(),
         ledger: wb.ledger.clone(),
@@ -1109,10 +1160,18 @@ fn final_phase_upto(w: &W, n: usize) -> bool {
     exec::with_ctx(|c| c.faults.clear());
     let mut rounds = 0;
     let mut quiescent = false;
-    let stores: Vec<MemStore> = w.borrow().stores.clone();
+    let stores: Vec<StoreRef> = w.borrow().stores.clone();
     let srv = w.borrow().server.clone();
-    let mut reps: Vec<(Replica<SimStorage>, Box<dyn Server>)> =
-        (0..n).map(|i| (Replica::new(SimStorage::mem(stores[i].clone())), Box::new(SimServer { node: i, world: srv.clone() }) as Box<dyn Server>)).collect();
+    let mut reps: Vec<(Replica<SimStorage>, Box<dyn Server>)> = Vec::new();
+    for i in 0..n {
+        match exec::block_on(simstorage::open_sim(&stores[i], false)) {
+            Ok(st) => reps.push((Replica::new(st), Box::new(SimServer { node: i, world: srv.clone() }) as Box<dyn Server>)),
+            Err(e) => {
+                w.borrow_mut().violation("storage.open", "final-phase", format!("node {i}: cannot open its store: {e:#}"));
+                return false;
+            }
+        }
+    }
     while rounds < 4 {
         rounds += 1;
         let len0 = srv.borrow().chain.versions.len();
@@ -1128,7 +1187,7 @@ fn final_phase_upto(w: &W, n: usize) -> bool {
         }
         let latest = srv.borrow().chain.latest;
         let settled = (0..n).all(|i| {
-            let st = simstorage::read_mem(&stores[i]);
+            let st = simstorage::read_store(&stores[i]);
             st.base_version == latest && st.unsynced.iter().all(|o| o.is_undo_point())
         });
         if settled && srv.borrow().chain.versions.len() == len0 {
@@ -1151,7 +1210,7 @@ fn history_oracles(w: &W) {
         Ok(exp) => {
             let stores = wb.stores.clone();
             for (i, s) in stores.iter().enumerate() {
-                let st = simstorage::read_mem(s);
+                let st = simstorage::read_store(s);
                 if st.tasks != exp {
                     wb.violation(
                         "convergence",
@@ -1309,8 +1368,8 @@ pub fn run_sweep(scv: &Value, want_log: bool) -> RunResult {
         absorb(&w, &dry, "uninterrupted");
         return finish(&w, evals, &[]);
     }
-    let before = simstorage::read_mem(&w.borrow().stores[v]);
-    let after = simstorage::read_mem(&dry.borrow().stores[v]);
+    let before = simstorage::read_store(&w.borrow().stores[v]);
+    let after = simstorage::read_store(&dry.borrow().stores[v]);
     let chain_after = dry.borrow().server.borrow().chain.state_latest().unwrap_or_default();
     if is_sync {
         let ev = &dry.borrow().probes;
@@ -1334,7 +1393,7 @@ pub fn run_sweep(scv: &Value, want_log: bool) -> RunResult {
             let tag = format!("{label}/{}", kind.name());
             w.borrow_mut().probe("sweep.points");
             if !has_violations(&c) {
-                let st = simstorage::read_mem(&c.borrow().stores[v]);
+                let st = simstorage::read_store(&c.borrow().stores[v]);
                 if !is_sync {
                     // all or nothing
                     if !same_store(&st, &before) && !same_store(&st, &after) {
@@ -1350,7 +1409,7 @@ pub fn run_sweep(scv: &Value, want_log: bool) -> RunResult {
                     set_single_script(&c, v, Some(Action::Sync { avoid: true }), 51);
                     run_scripted(&c, &[], Some(&[v]));
                     if !has_violations(&c) {
-                        let st2 = simstorage::read_mem(&c.borrow().stores[v]);
+                        let st2 = simstorage::read_store(&c.borrow().stores[v]);
                         let chain2 = c.borrow().server.borrow().chain.state_latest().unwrap_or_default();
                         if st2.tasks != after.tasks || chain2 != chain_after {
                             c.borrow_mut().violation(
@@ -1449,6 +1508,9 @@ pub fn gen_c04(seed: u64, i: u64, thorough: bool) -> Value {
         no_final: false,
         style: 0,
         late: 0,
+        sqlite: false,
+        ts_unit_ms: *rng.pick(&[0u32, 0, 0, 250, 100, 1]),
+        kill_budget: 0,
     };
     serde_json::to_value(sc).unwrap()
 }
@@ -1494,6 +1556,9 @@ pub fn gen_c05(seed: u64, i: u64, _thorough: bool) -> Value {
         no_final: true,
         style: 0,
         late: 0,
+        sqlite: false,
+        ts_unit_ms: 0,
+        kill_budget: 0,
     };
     serde_json::to_value(sc).unwrap()
 }
@@ -1539,6 +1604,9 @@ pub fn gen_c07(seed: u64, i: u64, _thorough: bool) -> Value {
         no_final: false,
         style: 0,
         late: 0,
+        sqlite: false,
+        ts_unit_ms: 0,
+        kill_budget: 0,
     };
     serde_json::to_value(sc).unwrap()
 }
@@ -1600,6 +1668,9 @@ pub fn gen_c12(seed: u64, i: u64, thorough: bool) -> Value {
         no_final: false,
         style: rng.below(2) as u8,
         late,
+        sqlite: false,
+        ts_unit_ms: *rng.pick(&[0u32, 0, 0, 250, 100, 1]),
+        kill_budget: 0,
     };
     serde_json::to_value(sc).unwrap()
 }
@@ -1645,6 +1716,9 @@ pub fn gen_c14(seed: u64, i: u64, _thorough: bool) -> Value {
         no_final: false,
         style: rng.below(2) as u8,
         late: 0,
+        sqlite: false,
+        ts_unit_ms: 0,
+        kill_budget: 0,
     };
     serde_json::to_value(sc).unwrap()
 }
@@ -1707,6 +1781,9 @@ pub fn gen_c15(seed: u64, i: u64, _thorough: bool) -> Value {
         no_final: false,
         style: 0,
         late: 0,
+        sqlite: false,
+        ts_unit_ms: 0,
+        kill_budget: 0,
     };
     serde_json::to_value(sc).unwrap()
 }
@@ -1795,6 +1872,9 @@ pub fn gen_c20(seed: u64, i: u64, _thorough: bool) -> Value {
         no_final: false,
         style: 0,
         late: 0,
+        sqlite: false,
+        ts_unit_ms: 0,
+        kill_budget: 0,
     };
     serde_json::to_value(sc).unwrap()
 }
@@ -1888,6 +1968,393 @@ pub fn gen_c19(seed: u64, i: u64, _thorough: bool) -> Value {
         no_final: false,
         style: 0,
         late: 0,
+        sqlite: false,
+        ts_unit_ms: 0,
+        kill_budget: 0,
+    };
+    serde_json::to_value(sc).unwrap()
+}
+
+// ---- C06: SQLite store is crash-atomic and durable -----------------------------------------------
+
+fn describe_store(s: &StoreState) -> String {
+    match &s.unreadable {
+        Some(e) => format!("UNREADABLE: {e}"),
+        None => format!("tasks {} base {} unsynced {} ws {:?}", model::fmt_taskset(&s.tasks), model::short(&s.base_version), s.unsynced.len(), fmt_ws(&s.working_set)),
+    }
+}
+
+pub fn run_c06(scv: &Value, want_log: bool) -> RunResult {
+    let sc = match parse_scenario(scv) {
+        Ok(s) => s,
+        Err(r) => return r,
+    };
+    exec::install(Ctx::new(sc.nodes));
+    let w = new_world(&sc, want_log);
+    run_scripted(&w, &sc.faults, None);
+    let mut evals = 0u64;
+    let Some((v, action)) = sc.under_test.clone() else { return finish(&w, 1, &[]) };
+    if has_violations(&w) || v >= sc.nodes {
+        return finish(&w, 1, &[]);
+    }
+    // uninterrupted run: enumerate the storage calls (and server requests) of the action
+    let dry = fork(&w);
+    set_single_script(&dry, v, Some(action.clone()), 50);
+    exec::with_ctx(|c| {
+        c.record_points = true;
+        c.point_log.clear();
+    });
+    run_scripted(&dry, &[], Some(&[v]));
+    let points: Vec<(u32, &'static str)> = exec::with_ctx(|c| {
+        c.record_points = false;
+        let p = c.point_log.iter().filter(|x| x.0 == v && x.1 == 0).map(|x| (x.2, x.3)).collect();
+        c.point_log.clear();
+        p
+    })
+    .unwrap();
+    evals += 1;
+    if has_violations(&dry) {
+        absorb(&w, &dry, "uninterrupted");
+        return finish(&w, evals, &[]);
+    }
+    // states[j] = what a freshly opened handle must see once exactly j commits of the action have returned
+    let mut states: Vec<std::sync::Arc<StoreState>> = vec![simstorage::read_store(&w.borrow().stores[v])];
+    let commit_points: Vec<u32> = points.iter().filter(|p| p.1 == "st.commit").map(|p| p.0).collect();
+    for (j, ord) in commit_points.iter().enumerate() {
+        if j + 1 == commit_points.len() {
+            states.push(simstorage::read_store(&dry.borrow().stores[v]));
+        } else {
+            // stop right after this commit has returned
+            let c = fork(&w);
+            set_single_script(&c, v, Some(action.clone()), 50);
+            run_scripted(&c, &[(v, 0, *ord, Decision::FailAfter)], Some(&[v]));
+            evals += 1;
+            states.push(simstorage::read_store(&c.borrow().stores[v]));
+        }
+    }
+    if commit_points.len() >= 2 {
+        w.borrow_mut().probe("c06.multi_commit_action");
+    }
+    w.borrow_mut().probe("sweep.actions");
+    'sweep: for (ord, label) in &points {
+        if *label == "act" {
+            continue;
+        }
+        let done = commit_points.iter().filter(|c| **c < *ord).count();
+        for kind in [Decision::FailBefore, Decision::Crash] {
+            let c = fork(&w);
+            set_single_script(&c, v, Some(action.clone()), 50);
+            run_scripted(&c, &[(v, 0, *ord, kind)], Some(&[v]));
+            evals += 1;
+            w.borrow_mut().probe("sweep.points");
+            let tag = format!("{label}/{}", kind.name());
+            // drop everything, reopen the directory with a fresh handle
+            let st = simstorage::read_store(&c.borrow().stores[v]);
+            let exp = &states[done];
+            // invariant violations etc. reported by the run itself are absorbed below
+            if st.unreadable.is_some() {
+                c.borrow_mut().violation("crash.reopen", "unreadable", format!("node {v}: after an interruption at point #{ord} ({label}) the store cannot be reopened: {}", describe_store(&st)));
+            } else if !same_store(&st, exp) {
+                let other = states.iter().position(|s| same_store(s, &st));
+                c.borrow_mut().violation(
+                    "crash.atomic",
+                    if other.is_some() { "wrong-boundary" } else { "partial" },
+                    format!(
+                        "node {v}: interruption at point #{ord} ({label}) with {done} of {} commits returned: a fresh handle sees a state that is {}\n  expected: {}\n  found:    {}",
+                        commit_points.len(),
+                        match other {
+                            Some(k) => format!("the state after {k} commits"),
+                            None => "none of the action's transaction boundaries".to_string(),
+                        },
+                        describe_store(exp),
+                        describe_store(&st)
+                    ),
+                );
+            }
+            let bad = has_violations(&c);
+            absorb(&w, &c, &tag);
+            if bad {
+                break 'sweep;
+            }
+        }
+    }
+    if !has_violations(&w) && sc.kill_budget > 0 {
+        let mut krng = Rng::new(mix(sc.seed, "kill", 0));
+        evals += kill_legs(&w, v, &action, &points, &commit_points, &states, sc.kill_budget as usize, &mut krng);
+    }
+    finish(&w, evals, &["sweep.points"])
+}
+
+// ---- victim processes: the same action, really SIGKILLed ------------------------------------------
+
+#[derive(Serialize, Deserialize)]
+pub struct VictimSpec {
+    pub sc: Scenario,
+    pub node: usize,
+    pub action: Action,
+    pub dir: String,
+    pub now_ns: i64,
+    /// (id, parent, bytes as text, origin)
+    pub versions: Vec<(Uuid, Uuid, String, usize)>,
+    pub latest: Uuid,
+    pub snapshot: Option<(Uuid, Vec<u8>)>,
+    pub discarded_before: usize,
+    pub srv_rng: [u64; 4],
+    /// kill on arrival at this point ordinal of the action (u32::MAX: right after the action returned)
+    pub kill_point: Option<u32>,
+    /// kill immediately before the k-th write-class system call
+    pub kill_write: Option<i64>,
+}
+
+fn victim_spec(w: &W, v: usize, action: &Action, dir: &std::path::Path) -> VictimSpec {
+    let wb = w.borrow();
+    let sw = wb.server.borrow();
+    VictimSpec {
+        sc: wb.sc.clone(),
+        node: v,
+        action: action.clone(),
+        dir: dir.to_string_lossy().to_string(),
+        now_ns: wb.now_ns,
+        versions: sw.chain.versions.iter().map(|x| (x.id, x.parent, String::from_utf8_lossy(&x.bytes).to_string(), x.origin)).collect(),
+        latest: sw.chain.latest,
+        snapshot: sw.chain.snapshot.clone(),
+        discarded_before: sw.chain.discarded_before,
+        srv_rng: sw.rng.state(),
+        kill_point: None,
+        kill_write: None,
+    }
+}
+
+/// `tcsim victim <spec.json>`: perform one action on a SQLite directory; die where told.
+/// Prints "C" after every commit that returned, "W <n>" (write-class syscalls) and "DONE" at the end.
+pub fn victim_main(path: &str) -> i32 {
+    let spec: VictimSpec = match std::fs::read_to_string(path).ok().and_then(|t| serde_json::from_str(&t).ok()) {
+        Some(s) => s,
+        None => return 2,
+    };
+    crate::interpose::activate(mix(spec.sc.seed, "victim", 0), EPOCH0);
+    let mut ctx = Ctx::new(spec.sc.nodes);
+    ctx.report_commits = true;
+    if let Some(k) = spec.kill_point {
+        if k != u32::MAX {
+            ctx.kill_at = Some((spec.node, 0, k));
+        }
+    }
+    exec::install(ctx);
+    let mut sc = spec.sc.clone();
+    sc.sqlite = false;
+    let w = new_world(&sc, false);
+    {
+        let mut wb = w.borrow_mut();
+        wb.now_ns = spec.now_ns;
+        wb.stores[spec.node] = StoreRef::Sqlite(std::path::PathBuf::from(&spec.dir));
+        let mut sw = wb.server.borrow_mut();
+        for (id, parent, bytes, origin) in &spec.versions {
+            let b = bytes.clone().into_bytes();
+            let ops = model::decode_version(&b, false).ok();
+            sw.chain.versions.push(model::VersionRec { id: *id, parent: *parent, bytes: b, origin: *origin, ops });
+        }
+        sw.chain.latest = spec.latest;
+        sw.chain.snapshot = spec.snapshot.clone();
+        sw.chain.discarded_before = spec.discarded_before;
+        sw.rng = Rng::from_state(spec.srv_rng);
+    }
+    interpose::set_now_ns(spec.now_ns);
+    set_single_script(&w, spec.node, Some(spec.action.clone()), 50);
+    crate::interpose::WRITE_COUNT.store(0, std::sync::atomic::Ordering::SeqCst);
+    if let Some(k) = spec.kill_write {
+        crate::interpose::KILL_AT_WRITE.store(k, std::sync::atomic::Ordering::SeqCst);
+    }
+    crate::interpose::COUNT_WRITES.store(true, std::sync::atomic::Ordering::SeqCst);
+    run_scripted(&w, &[], Some(&[spec.node]));
+    crate::interpose::COUNT_WRITES.store(false, std::sync::atomic::Ordering::SeqCst);
+    if spec.kill_point == Some(u32::MAX) {
+        exec::kill_self();
+    }
+    println!("W {}", crate::interpose::WRITE_COUNT.load(std::sync::atomic::Ordering::SeqCst));
+    println!("DONE");
+    0
+}
+
+struct VictimOutcome {
+    commits: usize,
+    writes: Option<i64>,
+    done: bool,
+    killed: bool,
+}
+
+fn run_victim(spec: &VictimSpec, file: &std::path::Path) -> Option<VictimOutcome> {
+    std::fs::write(file, serde_json::to_string(spec).ok()?).ok()?;
+    let exe = std::env::current_exe().ok()?;
+    let out = std::process::Command::new(exe).arg("victim").arg(file).stdin(std::process::Stdio::null()).stderr(std::process::Stdio::null()).output().ok()?;
+    let text = String::from_utf8_lossy(&out.stdout);
+    use std::os::unix::process::ExitStatusExt;
+    Some(VictimOutcome {
+        commits: text.lines().filter(|l| *l == "C").count(),
+        writes: text.lines().find_map(|l| l.strip_prefix("W ").and_then(|x| x.parse().ok())),
+        done: text.lines().any(|l| l == "DONE"),
+        killed: out.status.signal() == Some(libc::SIGKILL),
+    })
+}
+
+/// Kill legs of C06: the action runs in a victim process that is SIGKILLed at storage-call
+/// indices and at write-class system-call indices (inside SQLite's commit); afterwards the
+/// directory is opened by a fresh handle in this process.
+fn kill_legs(w: &W, v: usize, action: &Action, points: &[(u32, &'static str)], commit_points: &[u32], states: &[std::sync::Arc<StoreState>], budget: usize, rng: &mut Rng) -> u64 {
+    let mut evals = 0u64;
+    let root = match &w.borrow().root {
+        Some(r) => r.0.clone(),
+        None => return 0,
+    };
+    let src = match &w.borrow().stores[v] {
+        StoreRef::Sqlite(d) => d.clone(),
+        _ => return 0,
+    };
+    let mut k = 0u64;
+    let mut fresh = |k: &mut u64| -> std::path::PathBuf {
+        *k += 1;
+        let d = root.join(format!("victim{k}"));
+        let _ = std::fs::remove_dir_all(&d);
+        simstorage::copy_dir(&src, &d);
+        d
+    };
+    let file = root.join("victim.json");
+    // uninterrupted victim: counts the write-class system calls, and must agree with the in-process run
+    let d0 = fresh(&mut k);
+    let spec = victim_spec(w, v, action, &d0);
+    let Some(base) = run_victim(&spec, &file) else {
+        w.borrow_mut().violation("harness", "victim-spawn", "cannot run the victim process".into());
+        return evals;
+    };
+    evals += 1;
+    let st = simstorage::read_store(&StoreRef::Sqlite(d0.clone()));
+    if !base.done || !same_store(&st, states.last().unwrap()) {
+        w.borrow_mut().violation("harness", "victim-mismatch", format!("uninterrupted victim run differs from the in-process run: done={} state {}", base.done, describe_store(&st)));
+        return evals;
+    }
+    let total_writes = base.writes.unwrap_or(0);
+    w.borrow_mut().probe("kill.victims");
+    let check = |w: &W, st: &StoreState, lo: usize, hi: usize, what: String| {
+        let ok = (lo..=hi.min(states.len() - 1)).any(|j| same_store(st, &states[j]));
+        if st.unreadable.is_some() {
+            w.borrow_mut().violation("crash.reopen", "unreadable@kill", format!("{what}: the store cannot be reopened: {}", describe_store(st)));
+        } else if !ok {
+            let other = states.iter().position(|s| same_store(s, st));
+            w.borrow_mut().violation(
+                "crash.atomic",
+                if other.is_some() { "wrong-boundary@kill" } else { "partial@kill" },
+                format!("{what}: a fresh handle sees {}; with {lo} commits returned it must see the state after {lo}{} commits\n  expected: {}\n  found:    {}", match other { Some(j) => format!("the state after {j} commits"), None => "a state that is none of the action's transaction boundaries".into() }, if hi > lo { format!(" or {hi}") } else { String::new() }, describe_store(&states[lo.min(states.len() - 1)]), describe_store(st)),
+            );
+        }
+    };
+    // kills at storage-call granularity (incl. right after the action returned)
+    let mut cand: Vec<u32> = points.iter().filter(|p| p.1 != "act").map(|p| p.0).collect();
+    cand.push(u32::MAX);
+    rng.shuffle(&mut cand);
+    for ord in cand.into_iter().take(budget) {
+        let d = fresh(&mut k);
+        let mut spec = victim_spec(w, v, action, &d);
+        spec.kill_point = Some(ord);
+        let Some(o) = run_victim(&spec, &file) else { continue };
+        evals += 1;
+        if !o.killed {
+            continue;
+        }
+        w.borrow_mut().probe("kill.at_storage_call");
+        let done = if ord == u32::MAX { commit_points.len() } else { commit_points.iter().filter(|c| **c < ord).count() };
+        let st = simstorage::read_store(&StoreRef::Sqlite(d));
+        check(w, &st, done, done, format!("node {v}: process killed at storage call #{ord}"));
+        if has_violations(w) {
+            return evals;
+        }
+    }
+    // kills at write-syscall granularity: reaches instants inside SQLite's commit
+    let mut cand: Vec<i64> = (1..=total_writes).collect();
+    rng.shuffle(&mut cand);
+    for kw in cand.into_iter().take(budget * 2) {
+        let d = fresh(&mut k);
+        let mut spec = victim_spec(w, v, action, &d);
+        spec.kill_write = Some(kw);
+        let Some(o) = run_victim(&spec, &file) else { continue };
+        evals += 1;
+        if !o.killed {
+            continue;
+        }
+        w.borrow_mut().probe("kill.at_write_syscall");
+        let st = simstorage::read_store(&StoreRef::Sqlite(d));
+        // `commits` had returned; the one in flight may or may not have become durable
+        check(w, &st, o.commits, o.commits + 1, format!("node {v}: process killed before write-class system call #{kw} of {total_writes} ({} commits had returned)", o.commits));
+        if has_violations(w) {
+            return evals;
+        }
+    }
+    evals
+}
+
+pub fn gen_c06(seed: u64, i: u64, thorough: bool) -> Value {
+    let s = mix(seed, "C06", i);
+    let mut rng = Rng::new(s);
+    let nodes = *rng.pick(&[1usize, 2, 2]);
+    let mut g = GenCfg { tasks: 2 + rng.below(3) as u8, props: 1 + rng.below(2) as u8, ts_policy: rng.below(4) as u8, ts_counter: 0 };
+    let mut scripts = Vec::new();
+    for _ in 0..nodes {
+        let len = 1 + rng.usize_below(6);
+        let mut sc = Vec::new();
+        for _ in 0..len {
+            match rng.below(10) {
+                0..=2 => sc.push(Action::Sync { avoid: rng.chance(1, 2) }),
+                3 => sc.push(Action::Rebuild { renumber: rng.chance(1, 2) }),
+                4 => sc.push(Action::Undo),
+                _ => {
+                    let mut ops = gen_status_intents(&mut rng, &mut g, 4);
+                    if rng.chance(1, 2) {
+                        ops.insert(0, Intent::UndoPoint);
+                    }
+                    sc.push(Action::Commit { ops })
+                }
+            }
+        }
+        scripts.push(sc);
+    }
+    let v = rng.usize_below(nodes);
+    let under = match rng.below(10) {
+        0..=2 => Action::Commit { ops: gen_status_intents(&mut rng, &mut g, 5) },
+        3..=4 => Action::Undo,
+        5 => Action::Rebuild { renumber: true },
+        6 => Action::Rebuild { renumber: false },
+        7..=8 => Action::Sync { avoid: rng.chance(1, 2) },
+        _ => Action::Expire { at: 400 * DAY },
+    };
+    if matches!(under, Action::Expire { .. }) {
+        // give expiration something to purge
+        let t = rng.below(g.tasks as u64) as u8;
+        scripts[v].push(Action::Commit {
+            ops: vec![
+                Intent::Create { t },
+                Intent::Key { t, key: "status".into(), val: Some("deleted".into()), ts: 0 },
+                Intent::Key { t, key: "modified".into(), val: Some(crate::interpose::EPOCH0.to_string()), ts: 0 },
+            ],
+        });
+    }
+    let sc = Scenario {
+        check: "C06".into(),
+        seed: s,
+        nodes,
+        scripts,
+        sched_seed: rng.next_u64(),
+        atomic_sync: true,
+        bias: 0,
+        faults: vec![],
+        urgency_mode: *rng.pick(&[0u8, 1]),
+        srv_seed: rng.next_u64(),
+        rounds: vec![],
+        under_test: Some((v, under)),
+        no_final: true,
+        style: rng.below(2) as u8,
+        late: 0,
+        sqlite: true,
+        ts_unit_ms: 0,
+        kill_budget: if thorough { 6 } else if rng.chance(1, 3) { 2 } else { 0 },
     };
     serde_json::to_value(sc).unwrap()
 }
@@ -2161,11 +2628,12 @@ pub fn gen_c03(seed: u64, i: u64, _thorough: bool) -> Value {
                         }
                         for p in 0..props {
                             if rng.chance(1, 2) {
-                                let ts = rng.range(-2, 2);
-                                if rng.chance(1, 6) {
-                                    b.push(Intent::Remove { t, p, ts });
-                                } else {
-                                    b.push(Intent::Set { t, p, ts, big: false });
+                                let ts = rng.range(-3, 3);
+                                match rng.below(12) {
+                                    0..=1 => b.push(Intent::Remove { t, p, ts }),
+                                    // a value other replicas may set (or already hold) as well
+                                    2..=3 => b.push(Intent::Key { t, key: prop_name(p), val: Some(rng.pick(&["same", "other"]).to_string()), ts }),
+                                    _ => b.push(Intent::Set { t, p, ts, big: false }),
                                 }
                             }
                         }
@@ -2192,6 +2660,9 @@ pub fn gen_c03(seed: u64, i: u64, _thorough: bool) -> Value {
         no_final: false,
         style: 0,
         late: 0,
+        sqlite: false,
+        ts_unit_ms: *rng.pick(&[0u32, 0, 0, 250, 100, 1]),
+        kill_budget: 0,
     };
     serde_json::to_value(sc).unwrap()
 }
@@ -2390,7 +2861,11 @@ pub fn gen_c01(seed: u64, i: u64, thorough: bool) -> Value {
                     // make the pending changes exceed the one-megabyte batching threshold
                     let t = rng.below(g.tasks as u64) as u8;
                     let mut pre = vec![Intent::Create { t }];
-                    for _ in 0..(2 + rng.below(2)) {
+                    if rng.chance(1, 3) {
+                        // one operation that is over the threshold on its own
+                        pre.push(Intent::SetHuge { t, p: rng.below(g.props as u64) as u8, ts: gen_ts(&mut rng, &mut g) });
+                    }
+                    for _ in 0..(1 + rng.below(3)) {
                         pre.push(Intent::Set { t, p: rng.below(g.props as u64) as u8, ts: gen_ts(&mut rng, &mut g), big: true });
                     }
                     if rng.chance(1, 2) {
@@ -2411,7 +2886,7 @@ pub fn gen_c01(seed: u64, i: u64, thorough: bool) -> Value {
         nodes,
         scripts,
         sched_seed: rng.next_u64(),
-        atomic_sync: true,
+        atomic_sync: !rng.chance(1, 5),
         bias: 0,
         faults: vec![],
         urgency_mode: *rng.pick(&[0u8, 0, 1]),
@@ -2421,6 +2896,9 @@ pub fn gen_c01(seed: u64, i: u64, thorough: bool) -> Value {
         no_final: false,
         style: 0,
         late: 0,
+        sqlite: false,
+        ts_unit_ms: *rng.pick(&[0u32, 0, 0, 250, 100, 1]),
+        kill_budget: 0,
     };
     serde_json::to_value(sc).unwrap()
 }
@@ -2459,6 +2937,9 @@ pub fn gen_c02(seed: u64, i: u64, _thorough: bool) -> Value {
         no_final: false,
         style: 0,
         late: 0,
+        sqlite: false,
+        ts_unit_ms: *rng.pick(&[0u32, 0, 0, 250, 100, 1]),
+        kill_budget: 0,
     };
     serde_json::to_value(sc).unwrap()
 }
@@ -2529,6 +3010,13 @@ pub fn shrink(scv: &Value) -> Vec<Value> {
                     }
                 }
                 for k in 0..ops.len() {
+                    if let Intent::SetHuge { t, p, ts } = &ops[k] {
+                        let mut c = sc.clone();
+                        let mut o = ops.clone();
+                        o[k] = Intent::Set { t: *t, p: *p, ts: *ts, big: false };
+                        set_ops(&mut c.scripts[n][a], o);
+                        out.push(c);
+                    }
                     if let Intent::Set { t, p, ts, big: true } = &ops[k] {
                         let mut c = sc.clone();
                         let mut o = ops.clone();
@@ -2639,6 +3127,19 @@ const STUB_A: &[&str] = &["server = SimServer (M-chain reference model behind th
 
 pub fn checks() -> Vec<CheckDef> {
     vec![
+        CheckDef {
+            id: "C06",
+            level: "fault_enumeration",
+            runs_quick: 2_500,
+            runs_thorough: 120_000,
+            rule: "replicas over the real SqliteStorage (one directory each on tmpfs); after a seeded history one action (commit, undo, rebuild with/without renumbering, sync, expire) is run once fault-free to enumerate its storage calls and to record, through freshly opened handles, the state after each of its transaction commits; it is then re-executed from a copy of the directory once per storage-call index with {error returned, caller dropped (transaction abandoned)}, the handle is closed and a fresh SqliteStorage opened: it must see exactly the state after the commits that had returned before the interruption (never an intermediate state, never less than a returned commit). evaluations = executions. Non-trivial: at least one point swept; distinct = distinct trace hash.",
+            gen: gen_c06,
+            run: run_c06,
+            shrink,
+            real: &["taskchampion::Replica", "taskdb::*", "storage::sqlite (SqliteStorage, inner, schema)", "storage::send_wrapper (actor thread)", "rusqlite + bundled SQLite on tmpfs"],
+            stub: STUB_A,
+            assumptions: &["in-process interruptions (error / dropped caller); process kills at storage-call and write-syscall granularity are exercised by the kill legs (see probes kill.*)", "crash = process stop with completed syscalls surviving; power loss is out of scope"],
+        },
         CheckDef {
             id: "C15",
             level: "exploration",
